@@ -960,6 +960,30 @@ nnls_normal_block3(cholmod_sparse *AtA, cholmod_dense *Atb, int verbose,
                         L = modify_factor(AtA, L, F, &nF, G, &nG, H1, &nH1, 
                             H2, &nH2, verbose, c);
 
+                        /*
+                         * If the system restricted to the passive set is
+                         * not positive definite it has no unique minimiser,
+                         * the solve below yields NaNs, and with them no
+                         * test in this loop can ever come out true again.
+                         * Give up rather than iterate forever.
+                         */
+                        if (L == NULL || L->minor < L->n) {
+                                if (verbose)
+                                        printf("\tSystem is not positive "
+                                            "definite, giving up\n");
+                                cholmod_l_free_dense(&x, c);
+                                cholmod_l_free_dense(&y, c);
+                                if (L != NULL)
+                                        cholmod_l_free_factor(&L, c);
+                                free(F);
+                                free(G);
+                                free(Fprime);
+                                free(Gprime);
+                                free(H1);
+                                free(H2);
+                                return (NULL);
+                        }
+
                         if (verbose) t0 = clock();
 
                         AtA_F = NULL;
